@@ -15,15 +15,20 @@ import deribit_lib as L
 from common import Ctx
 
 PROPERTY = "C15"
-LEAN_MODULES = ["Proofs.C15", "Proofs.C15.Seq", "Proofs.C15.Float"]
+LEAN_MODULES = ["Proofs.C15", "Proofs.C15.Seq", "Proofs.C15.Float", "Proofs.C15.Norm"]
 DRIVERS = ["driver_deribit"]
 RULE = ("random books (1-4 instruments, 0-12 levels a side, int and float sizes incl. emptied levels, prices on and off the 0.0005 grid, ETH and BTC "
-        "steps) and sequences of 1-8 buys/sells inside one bar; buckets = (side, pricing mode market/limit-exact/limit-near/limit-edge/limit-usd "
+        "steps; 30 % of the sides as rows in any order with price levels split over several rows; 30 % of the books with an instrument on a binary "
+        "price grid whose book has an ask exactly on multiple x mark and a bid exactly on mark / multiple, traded with that multiple and amounts "
+        "reaching into the tie level; 15 % of the instruments priced 0.5-1.2 so that neighbouring levels lie within the 0.1 % limit window, limit "
+        "amounts up to the sum of the window; half of the books handed over as the market's own data frame) and sequences of 1-8 buys/sells inside one "
+        "bar with read-only calls (estimate_cost, check_transaction, get_market_balance) in between; buckets = (side, pricing mode market/limit-exact/limit-near/limit-edge/limit-usd "
         "with or without mark cap, amount class, outcome class+cause, number of levels filled)")
 TRUSTED = ["float arithmetic of the order-book sizes is reproduced with Lean `Float` (IEEE binary64) in the driver; theorems treat book floats as reals "
            "(DCtx.ideal) and Decimal arithmetic as exact (NumCtx.exact)",
            "shortest float repr (Decimal(str(f))) is re-implemented in the model and compared on every dumped level"]
-ASSUMPTIONS = ["price levels of one side of a book are distinct and instrument names unique (data contract of the Deribit book files)",
+ASSUMPTIONS = ["instrument names unique; the rows of a side may come in any order and may repeat a price (orders are matched against the side sorted "
+               "best-first with one level per price, showing the sum of its rows)",
                "sizes are finite, non-negative and < 2^53; amounts < 1e20",
                "Decimal arithmetic = exact result rounded half-even to 35 digits"]
 
@@ -60,6 +65,24 @@ def displayed(size: Fraction, is_float: bool) -> Fraction:
 
 def price_str(p: Fraction) -> Fraction:
     return Fraction(Decimal(repr(p.numerator / p.denominator)))
+
+
+def norm_side(levels, side):
+    """one side the way an exchange shows it, from the dumped rows [price, size, is_float]: best price first, one level per price;
+    a level displays what the rows at its price display together.  -> [price, displayed size, merged from several rows?]"""
+    agg = {}
+    for p, sz, isf in levels:
+        d = displayed(sz, isf)
+        agg[p] = [p, agg[p][1] + d, True] if p in agg else [p, d, False]
+    return [agg[p] for p in sorted(agg, reverse=(side == "sell"))]
+
+
+def totals(levels):
+    """price -> total raw size of the rows at that price"""
+    t = {}
+    for l in levels:
+        t[l[0]] = t.get(l[0], Fraction(0)) + l[1]
+    return t
 
 
 def find(book, name):
@@ -105,9 +128,11 @@ def oracle_trade(ctx, rig_token, S, op, out, res, S2, acts, rep, bar_tracker=Non
         v("fill-total", f"filled {L.fmt(total)} for a request of {L.fmt(mj['amount'])} (step-rounded {L.fmt(amt)})")
     if mj["amount"] < Fraction(10) ** texp:
         v("below-min-accepted", f"amount {L.fmt(mj['amount'])} below the contract step was accepted")
-    levels = ins[key]
+    levels = norm_side(ins[key], side)
     # mark-relative cap.  A level priced *exactly* at the cap is a tie that the 35-digit rounding of `multiple x Decimal(mark)` decides
-    # either way (1e-35 relative); both readings are accepted, a level beyond the tie band is not.
+    # either way (1e-35 relative): the level may count as allowed or not, a level beyond the tie band is not allowed.  Only the
+    # *membership* of the tie level is open: whichever reading is taken, the outcome has to be consistent with it -- the clauses on
+    # the filled total, cash, fee, position and the book below are judged unconditionally.
     premium = sum((f[0] * f[1] for f in fills), Fraction(0))
     EPS = Fraction(1, 10 ** 30)
     if mj["mult"] is not None:
@@ -144,10 +169,11 @@ def oracle_trade(ctx, rig_token, S, op, out, res, S2, acts, rep, bar_tracker=Non
                     if f[0] != price_str(l[0]):
                         w("not-best-first", f"fill {i} at {L.fmt(f[0])} but the {i}-th best level is {L.fmt(price_str(l[0]))}")
                         break
-                    d = displayed(l[1], l[2])
-                    if f[1] > d:
+                    d = l[1]
+                    slack = FTOL * d if l[2] else 0        # sizes of several rows at one price are added up as floats
+                    if f[1] > d + slack:
                         w("over-displayed-size", f"took {L.fmt(f[1])} from a level showing {L.fmt(d)}")
-                    if i + 1 < len(fills) and f[1] != d:
+                    if i + 1 < len(fills) and abs(f[1] - d) > slack:
                         w("level-skipped-partly", f"level {i} showing {L.fmt(d)} gave only {L.fmt(f[1])} before the next level was used")
         else:
             want = mj["priceTok"] if mj["priceTok"] is not None else (mj["priceUsd"] / price_str(ins["underlying"]))
@@ -159,8 +185,8 @@ def oracle_trade(ctx, rig_token, S, op, out, res, S2, acts, rep, bar_tracker=Non
                 lv = [l for l in avail if price_str(l[0]) == f[0]]
                 if not lv:
                     w("limit-no-such-level", f"filled at {L.fmt(f[0])}, not a visible (allowed) level")
-                elif f[1] > displayed(lv[0][1], lv[0][2]):
-                    w("over-displayed-size", f"took {L.fmt(f[1])} from a level showing {L.fmt(displayed(lv[0][1], lv[0][2]))}")
+                elif f[1] > lv[0][1] * (1 + (FTOL if lv[0][2] else 0)):
+                    w("over-displayed-size", f"took {L.fmt(f[1])} from a level showing {L.fmt(lv[0][1])}")
         return out
 
     verdicts = [judge(a) for a in cands]
@@ -185,18 +211,23 @@ def oracle_trade(ctx, rig_token, S, op, out, res, S2, acts, rep, bar_tracker=Non
                 if i1[k] != i2[k]:
                     v("other-book-touched", f"{k} of {i2['name']} changed")
                 continue
-            if len(i1[k]) != len(i2[k]):
-                v("book-levels-lost", "number of levels changed")
+            # price by price (the rows of the data may be in any order and may repeat a price; what is written back is one row per price)
+            t1, t2 = totals(i1[k]), totals(i2[k])
+            if set(t1) != set(t2):
+                v("book-levels-lost", f"price levels changed: {sorted(L.fmt(x) for x in set(t1) ^ set(t2))}")
                 continue
             used = {}
             for f in fills:
                 used[f[0]] = used.get(f[0], Fraction(0)) + f[1]
-            for a, b in zip(i1[k], i2[k]):
-                taken = used.pop(price_str(a[0]), Fraction(0))
-                if a[0] != b[0] or not (abs(b[1] - (a[1] - taken)) <= FTOL * max(a[1], 1)):
-                    v("book-not-old-minus-fills", f"level {L.fmt(price_str(a[0]))}: {L.fmt(a[1])} -> {L.fmt(b[1])} after a fill of {L.fmt(taken)}")
+            for pr in t1:
+                taken = used.pop(price_str(pr), Fraction(0))
+                if not (abs(t2[pr] - (t1[pr] - taken)) <= FTOL * max(t1[pr], 1)):
+                    v("book-not-old-minus-fills", f"level {L.fmt(price_str(pr))}: {L.fmt(t1[pr])} -> {L.fmt(t2[pr])} after a fill of {L.fmt(taken)}")
+            if used:
+                v("book-not-old-minus-fills", f"fills at {sorted(L.fmt(x) for x in used)} which are not prices of the book")
+            for b in i2[k]:
                 if b[1] < 0:
-                    v("book-negative-size", f"level {L.fmt(price_str(a[0]))} shows {L.fmt(b[1])}")
+                    v("book-negative-size", f"level {L.fmt(price_str(b[0]))} shows {L.fmt(b[1])}")
     # positions
     p1 = {p["key"]: p for p in S["positions"]}
     p2 = {p["key"]: p for p in S2["positions"]}
@@ -262,17 +293,33 @@ def oracle_equity(ctx, token, S, bal, rep):
 def run_sequence(ctx: Ctx, spec, reqs, oracle_only=False):
     """spec: instrs, now, token, wallet, cash, positions, ops.  Runs the real market, the oracle, queues model requests."""
     rig = L.Rig(spec["instrs"], now=spec["now"], token=spec["token"], wallet=Decimal(spec["wallet"]), cash=Decimal(spec["cash"]),
-                positions=spec["positions"])
+                positions=spec["positions"], via_frame=spec.get("via_frame", False))
     rep = {"spec": spec}
     orig = L.dump_state(rig)["book"]
+    frame0 = L.frame_cells(rig)
     tracker = {}
     for idx, (op, tag) in enumerate(spec["ops"]):
         S = L.dump_state(rig)
         n0 = len(rig.actions)
+        fr = L.frame_cells(rig)
         out, res = L.apply_op(rig, op)
         S2 = L.dump_state(rig)
         acts = [L.dump_action(a) for a in rig.actions[n0:]]
         srep = dict(rep, step=idx)
+        if op["type"] in ("estimate", "check", "balance"):
+            # helpers that only read: nothing is filled, so nothing the property observes may move -- not the visible book, and not the
+            # frame the book is refreshed from
+            ctx.case(f"probe:{op['type']}:{tag}:{out}")
+            for k in ("book", "cash", "positions", "wallet"):
+                if S2[k] != S[k]:
+                    ctx.violate(f"{op['type']}.{k}-changes-without-fill",
+                                f"{op['type']}({ {a: str(b) for a, b in op.items() if a != 'type'} }) [{out}] is not an order, yet the {k} changed", srep)
+            if acts:
+                ctx.violate(f"{op['type']}.action-logged", f"{op['type']} recorded an action", srep)
+            if L.frame_cells(rig) != fr:
+                ctx.violate(f"{op['type']}.data-frame-changes", f"{op['type']}({ {a: str(b) for a, b in op.items() if a != 'type'} }) [{out}] changed the order "
+                            f"book cells of the data frame the visible book is refreshed from", srep)
+            continue
         if op["type"] in ("buy", "sell"):
             oracle_trade(ctx, spec["token"], S, op, out, res, S2, acts, srep, tracker)
             nfill = len(res["fills"]) if out == "ok" else 0
@@ -287,41 +334,59 @@ def run_sequence(ctx: Ctx, spec, reqs, oracle_only=False):
             reqs.append((f"{op['type']}:{tag}", L.step_request(S, op, spec["token"]), out, res, S2, acts, srep))
         else:
             reqs.append((f"{op['type']}:{tag}", L.step_request(S, op, spec["token"]), out, res, S2, acts, srep))
+    # the frame the book is refreshed from at the next bar is what it was: fills live in the visible copy only
+    if frame0 is not None and L.frame_cells(rig) != frame0:
+        ctx.violate("bar.data-frame-changed", "the order-book cells of the market's data frame changed during the bar: the next refresh does not restore "
+                    "the displayed sizes", rep)
     # over the whole bar: what was taken from a level never exceeds what it showed when the bar began
     final = L.dump_state(rig)["book"]
     for (name, key, p), taken in tracker.items():
         i0, i1 = find(orig, name), find(final, name)
-        for a, b in zip(i0[key], i1[key]):
+        t0, t1 = totals(i0[key]), totals(i1[key])
+        for a in norm_side(i0[key], "buy"):
             if price_str(a[0]) == p:
-                d = displayed(a[1], a[2])
+                d = a[1]
                 if taken > d * (1 + FTOL):
                     ctx.violate("bar.level-overdrawn", f"{name} {key} level {L.fmt(p)} showed {L.fmt(d)} at the start of the bar but {L.fmt(taken)} were filled from it", rep)
-                if not (abs(b[1] - (a[1] - taken)) <= FTOL * max(a[1], 1)):
-                    ctx.violate("bar.book-drift", f"{name} {key} level {L.fmt(p)}: {L.fmt(a[1])} - fills {L.fmt(taken)} != visible {L.fmt(b[1])}", rep)
+                if not (abs(t1.get(a[0], Fraction(0)) - (t0[a[0]] - taken)) <= FTOL * max(t0[a[0]], 1)):
+                    ctx.violate("bar.book-drift", f"{name} {key} level {L.fmt(p)}: {L.fmt(t0[a[0]])} - fills {L.fmt(taken)} != visible {L.fmt(t1.get(a[0], Fraction(0)))}", rep)
 
 
 def gen_spec(rng):
     token = "ETH" if rng.random() < 0.8 else "BTC"
     now = 60 * rng.randint(1, 200)
-    instrs = L.gen_book(rng, token, now, crossed=True)
+    instrs = L.gen_book(rng, token, now, crossed=True, rough=0.3, tie=0.3)
     cash = rng.choice((Decimal(100000), Decimal(100000), Decimal(1000), Decimal(1000), Decimal(50), Decimal(1), Decimal("0.1"), Decimal("0.002"), Decimal(0)))
     positions = []
     held = {}
     for i in instrs:
-        if rng.random() < 0.45:
-            top = rng.choice((80, 80, 5000))
+        if rng.random() < (0.8 if "tie" in i else 0.45):
+            top = rng.choice((80, 80, 5000)) if "tie" not in i else 5000
             a = Decimal(rng.randint(1, top)) if token == "ETH" else Decimal(rng.randint(1, 10 * top)) / 10
             positions.append({"name": i["name"], "expiry": i["expiry"], "strike": i["strike"], "kind": i["kind"], "amount": str(a),
                               "avgBuy": str(Decimal(rng.randint(1, 900)) / 10000), "buyAmt": str(a + rng.randint(0, 5)),
                               "avgSell": str(Decimal(rng.randint(0, 900)) / 10000), "sellAmt": str(rng.randint(0, 5))})
             held[i["name"]] = a
     ops = []
+    via_frame = rng.random() < 0.5
     for _ in range(rng.randint(1, 8)):
+        if rng.random() < 0.25 and instrs:
+            # a read-only call in between: estimate_cost (needs the market's own frame), check_transaction, get_market_balance
+            t, ttag = L.gen_trade(rng, instrs, token, positions=held)
+            kind = rng.choice(("estimate", "check", "check", "balance") if via_frame else ("check", "check", "balance"))
+            probe = {"type": kind}
+            if kind != "balance":
+                probe.update({k: v for k, v in t.items() if k != "type"})
+                probe["side"] = t["type"]
+                if kind == "estimate":
+                    probe.pop("mult", None)
+                    probe.pop("priceUsd", None)
+            ops.append((probe, ttag.split(":")[0]))
         op, tag = L.gen_trade(rng, instrs, token, positions=held)
         ops.append((op, tag))
         if op["type"] == "buy" and isinstance(op["amount"], (int, Decimal)) and op["amount"] >= 1:
             held[op["name"]] = held.get(op["name"], Decimal(0)) + Decimal(op["amount"])   # optimistic: later sells aim at it
-    return {"instrs": instrs, "now": now, "token": token, "wallet": "5", "cash": str(cash), "positions": positions, "ops": ops}
+    return {"instrs": instrs, "now": now, "token": token, "wallet": "5", "cash": str(cash), "positions": positions, "ops": ops, "via_frame": via_frame}
 
 
 def directed_specs():
@@ -343,7 +408,31 @@ def directed_specs():
             "asks": [[0.029, 0.09999999999999999], [0.0295, 0.2]], "bids": [[0.028, 0.09999999999999999], [0.0275, 0.2]]}]
     mkb = lambda ops: {"instrs": btc, "now": 360, "token": "BTC", "wallet": "5", "cash": "10", "positions": [],  # noqa: E731
                        "ops": [(o, "directed-float-residue") for o in ops]}
+    rough1 = copy.deepcopy(base)
+    rough1[0]["asks"] = [[0.06, 5], [0.05, 5], [0.055, 5]]          # rows not in price order
+    rough2 = copy.deepcopy(base)
+    rough2[0]["asks"] = [[0.05, 5], [0.05, 7]]                      # one price level in two rows
+    rough2[0]["bids"] = [[0.02, 3], [0.028, 4.0], [0.02, 2.5], [0.028, 1]]
+    tie_a = copy.deepcopy(base)                                     # 2 x 0.03125 = 0.0625 exactly: the second ask sits on the cap
+    tie_a[0].update({"mark": 0.03125, "asks": [[0.05, 3], [0.0625, 5], [0.07, 9]], "bids": [[0.03, 3], [0.015625, 5], [0.01, 2]]})
+    pos10 = [{"name": base[0]["name"], "expiry": 30000, "strike": 1650, "kind": "CALL", "amount": "10"}]
+    near = copy.deepcopy(base)                                      # two asks / bids within 0.1 % of one another
+    near[0].update({"mark": 0.8, "asks": [[0.8, 3], [0.8005, 10], [0.81, 4]], "bids": [[0.7995, 3], [0.799, 10], [0.78, 4]]})
+    one = copy.deepcopy(base)                                       # exactly one level a side
+    one[0].update({"asks": [[0.03, 145]], "bids": [[0.027, 70]]})
+    mkf = lambda instrs, cash, positions, ops: dict(mk(instrs, cash, positions, ops), via_frame=True)  # noqa: E731
     return [
+        mk(near, "100", pos10, [{"type": "buy", "name": n, "amount": 5, "priceTok": 0.8}, {"type": "sell", "name": n, "amount": 5, "priceTok": 0.7995},
+                                 {"type": "buy", "name": n, "amount": 3, "priceTok": 0.8005}]),
+        mkf(one, "100", pos10, [{"type": "estimate", "name": n, "amount": 5, "side": "buy"}, {"type": "estimate", "name": n, "amount": 5, "side": "sell"},
+                                 {"type": "check", "name": n, "amount": 5, "side": "buy"}, {"type": "buy", "name": n, "amount": 5},
+                                 {"type": "estimate", "name": n, "amount": 5, "side": "buy", "priceTok": 0.03}, {"type": "sell", "name": n, "amount": 5}]),
+        mk(rough1, "100", [], [{"type": "buy", "name": n, "amount": 3}, {"type": "buy", "name": n, "amount": 8}]),
+        mk(rough2, "100", [], [{"type": "buy", "name": n, "amount": 2, "priceTok": 0.05}, {"type": "buy", "name": n, "amount": 8},
+                               {"type": "sell", "name": n, "amount": 6}, {"type": "sell", "name": n, "amount": 4}]),
+        mk(tie_a, "100", pos10, [{"type": "buy", "name": n, "amount": 6, "mult": 2}, {"type": "sell", "name": n, "amount": 6, "mult": 2},
+                                  {"type": "buy", "name": n, "amount": 3, "mult": 2.0}, {"type": "sell", "name": n, "amount": 3, "mult": Decimal("2")},
+                                  {"type": "buy", "name": n, "amount": 2, "mult": 2, "priceTok": 0.0625}]),
         # sizes that are float residues (0.3 - 0.2 style): the depth check and the fill loop must read them the same way
         mkb([{"type": "buy", "name": btc[0]["name"], "amount": Decimal("0.3")}]),
         mkb([{"type": "buy", "name": btc[0]["name"], "amount": Decimal("0.2")}, {"type": "buy", "name": btc[0]["name"], "amount": Decimal("0.1")},
